@@ -115,18 +115,14 @@ def fser (Mp : MapEnv) (NF : List String) : FieldDecl → PyVal → R PyVal
     else if nonFastRef NF item then .error (.other "AttributeError")     -- `items._ty.serialize`
     else fList (mapE (fser Mp NF item)) v
   | .seqOf .deque item _, v => fList (mapE (fser Mp NF item)) v
-  | .seqPos _ items _ _, v => fList (fserZip Mp NF items) v
+  | .seqPos .list items _ _, v => fList (fserZipRaw Mp NF items) v    -- surplus elements: `deepcopy(x)`
+  | .seqPos .deque items _ _, v => fList (fserZip Mp NF items) v
   | .seqAny _ _, v => fList (fun xs => .ok xs) v              -- `deepcopy(list(value))`
   | .setOf _ item _, v =>
     if nonFastRef NF item then .error (.other "AttributeError")
     else fList (mapE (fser Mp NF item)) v
   | .setAny _ _, v => fList (fun xs => .ok xs) v
-  | .tupleOf item _, v =>
-    -- `Tuple[X]` keeps `items = [X]` and indexes it by position
-    fList (fun xs => match xs with
-      | [] => .ok []
-      | x :: rest => bindE (fser Mp NF item x) fun y =>
-          if rest.isEmpty then .ok [y] else .error (.other "IndexError")) v
+  | .tupleOf item _, v => fList (mapE (fser Mp NF item)) v       -- `Tuple[X]`: all elements through X
   | .tuplePos items _, v => fList (fserZip Mp NF items) v
   | .mapOf kf vf _, v =>
     fMap (mapE (fun (kv : PyVal × PyVal) =>
@@ -155,6 +151,14 @@ def fserZip (Mp : MapEnv) (NF : List String) : List FieldDecl → List PyVal →
   | [], _ :: _ => .error (.other "IndexError")
   | f :: fs, x :: xs =>
     bindE (fser Mp NF f x) fun y => bindE (fserZip Mp NF fs xs) fun ys => .ok (y :: ys)
+termination_by structural fs _ => fs
+
+/-- Array.serialize with positional items: elements beyond the item fields are passed through -/
+def fserZipRaw (Mp : MapEnv) (NF : List String) : List FieldDecl → List PyVal → R (List PyVal)
+  | _, [] => .ok []
+  | [], x :: xs => .ok (x :: xs)
+  | f :: fs, x :: xs =>
+    bindE (fser Mp NF f x) fun y => bindE (fserZipRaw Mp NF fs xs) fun ys => .ok (y :: ys)
 termination_by structural fs _ => fs
 
 /-- `AnyOf.serialize`: through `_not_nonefield`, the LAST option that is not `NoneField` -/
